@@ -2,7 +2,8 @@
 \* Exhaustive model of the ideal synchronous memory MultiMem (C23): every port input vector
 \* that satisfies the driver precondition, in every reachable state.
 \*   EdgeMode = 0 : all Configs, nothing printed (pure model check)
-\*   EdgeMode = 1 : ConfigsEdge, write port j always carries data j; every transition printed
+\*   EdgeMode = 1 : ConfigsEdge, write port j carries data j (or 0 with granularity None);
+\*                  every transition printed
 \*   EdgeMode = 2 : ConfigsEdge, full input domain; every transition printed
 EXTENDS Naturals, Sequences, FiniteSets, TLC, Json
 CONSTANT EdgeMode
@@ -10,7 +11,9 @@ VARIABLES cfg, st, last
 C == INSTANCE MultiMem
 vars == <<cfg, st, last>>
 Emitting == EdgeMode # 0
-Inputs == {i \in C!Inputs(cfg) : EdgeMode = 1 => \A j \in DOMAIN i.w : i.w[j].data = j}
+Inputs == {i \in C!Inputs(cfg) :
+             /\ EdgeMode = 1 => \A j \in DOMAIN i.w : i.w[j].data = j \/ (i.w[j].data = 0 /\ i.w[j].en # 0)
+             /\ \A j \in DOMAIN i.w : i.w[j].en = 0 => i.w[j].data = j}
 Init == /\ cfg \in (IF Emitting THEN C!ConfigsEdge ELSE C!Configs)
         /\ st = C!CInit(cfg)
         /\ last = [r |-> <<>>, w |-> <<>>]
